@@ -198,28 +198,32 @@ def parseOperand (G : Tables) (kind : Nat) (d : DState) : PRes IErr (List Operan
 
 /-! ### hand-written parser -/
 
+/-- `Ok(dr::Operand::LiteralBit32(self.decoder.bit32()?))` -/
+def litOne (G : Tables) (d : DState) : PRes IErr Operand × DState :=
+  match DState.word d with
+  | (.ok v, d') => (.ok (.w G.vLit32 v), d')
+  | (.err x, d') => (.err (.operandError x), d')
+  | (.panic s, d') => (.panic s, d')
+
+/-- `Ok(dr::Operand::LiteralBit64(self.decoder.bit64()?))` -/
+def litTwo (d : DState) : PRes IErr Operand × DState :=
+  match DState.bit64 d with
+  | (.ok v, d') => (.ok (.q v), d')
+  | (.err x, d') => (.err (.operandError x), d')
+  | (.panic s, d') => (.panic s, d')
+
 /-- `Parser::parse_literal` -/
 def parseLiteral (G : Tables) (τ : Tracker) (idx : Nat) (typeId : Nat) (d : DState) : PRes IErr Operand × DState :=
-  let one : PRes IErr Operand × DState :=
-    match DState.word d with
-    | (.ok v, d') => (.ok (.w G.vLit32 v), d')
-    | (.err x, d') => (.err (.operandError x), d')
-    | (.panic s, d') => (.panic s, d')
-  let two : PRes IErr Operand × DState :=
-    match DState.bit64 d with
-    | (.ok v, d') => (.ok (.q v), d')
-    | (.err x, d') => (.err (.operandError x), d')
-    | (.panic s, d') => (.panic s, d')
   match τ.resolve typeId with
   | some (.int w _) =>
-    if w == 8 || w == 16 || w == 32 then one
-    else if w == 64 then two
+    if w == 8 || w == 16 || w == 32 then litOne G d
+    else if w == 64 then litTwo d
     else (.err (.typeUnsupported d.offset idx), d)
   | some (.float w) =>
-    if w == 16 || w == 32 then one
-    else if w == 64 then two
+    if w == 16 || w == 32 then litOne G d
+    else if w == 64 then litTwo d
     else (.err (.typeUnsupported d.offset idx), d)
-  | none => one
+  | none => litOne G d
 
 def isCtxKind (G : Tables) (k : Nat) : Bool := k == G.kCtxNumber || k == G.kPairLitId || k == G.kSpecOp
 
